@@ -345,7 +345,9 @@ struct ilut {
 
                 // Get largest p elements in L and U.
                 ptr lend = std::min(b + lp, m);
-                ptr uend = std::min(m + up, e);
+                // The U part starts with the diagonal, which is always kept and
+                // does not count towards the fill limit.
+                ptr uend = std::min(m + up + 1, e);
 
                 if (lend != m) std::nth_element(b, lend, m, by_abs_val(dia));
                 if (uend != e) std::nth_element(m, uend, e, by_abs_val(dia));
